@@ -186,6 +186,17 @@ def run(F, R, tier):
             for leaf in H.value_leaves(init):
                 out += classify(leaf, g_here, d + 1)
             return out
+        if e.get("k") == "bin" and e.get("op") == "-" and H.is_local(H.strip(e["l"])) and H.strip(e["r"]).get("k") == "lit" and d < 5:
+            # `cursor += 1; cursor - 1`: the value the cursor had before the step (the block's last statement advances the
+            # cursor by what the tail expression takes off again)
+            lid = H.local_id(H.strip(e["l"]))
+            k_ = H.strip(e["r"]).get("v")
+            for blk in H.walk(bb):
+                if blk.get("k") == "block" and blk.get("expr") is not None and H.strip(blk["expr"]) is e and blk.get("stmts"):
+                    last = blk["stmts"][-1]
+                    le = last.get("e") if last.get("k") in ("semi", "expr") else None
+                    if le is not None and le.get("k") == "assignop" and le.get("op") in ("+", "+=") and H.local_id(H.strip(le["l"])) == lid and H.strip(le["r"]).get("v") == k_:
+                        return classify(e["l"], g_outer, d + 1)
         if e.get("k") == "bin" and e.get("op") == "+":
             r = H.strip(e["r"])
             parsed = any(y.get("k") == "mcall" and y["m"] == "parse" for y in H.walk(e))
